@@ -280,7 +280,8 @@ def _check_values(what, got, refs, scale_fn, shape, tol, stats):
             raise Violation('%s: element %d is %r, reference %s' % (what, k, g, mpmath.nstr(ref, 17)))
         abs_err = max(float(abs(mpf(gr) - ref)), abs(gi))
         scale = max(1.0, float(abs(ref)))
-        if abs_err > tol * scale:
+        if abs_err > 1e-3 * tol * scale:
+            # noticeable error: measure it in the conditioning-aware scale (costs the reference of order n + 1)
             scale = scale_fn(k)
         err = abs_err / scale
         stats.err(err)
